@@ -247,6 +247,15 @@ func init() {
 				}
 				if stable >= 3 || time.Since(agreedAt) > 4*time.Second {
 					time.Sleep(150 * time.Millisecond)
+					// a routing update that is still running (it pushes a second time when a member reported left-over
+					// data) holds the routing lock of its coordinator until it is through
+					for _, m := range cl.members {
+						if m.alive {
+							rt := m.db.VerifInternals().RT
+							rt.Lock()
+							rt.Unlock()
+						}
+					}
 					return "ok " + strconv.Itoa(want)
 				}
 			} else {
